@@ -149,6 +149,23 @@ def run(ctx, eng):
            not early_bad, '; '.join(sorted(set(early_bad))) or
            'a refused send has stepped no machine, written no window and '
            'appended nothing', node=fi.node)
+    # a send that is refused by anything at all (the stream machine, a
+    # closed stream, ...) must not have consumed either window
+    late = []
+    for p in cm.raise_paths(paths):
+        if p.exc['names'] <= {'AssertionError'}:
+            continue            # decided by ARITH.assert below
+        ws = [e for e in p.events if e.kind == 'write' and
+              e.attr == 'outbound_flow_control_window']
+        if ws:
+            late.append('%s can be raised after the %s window was '
+                        'decremented' % (
+                            '/'.join(sorted(p.exc['names'])),
+                            'connection' if ws[0].base == ('p', 'self')
+                            else 'stream'))
+    ctx.ob('ATOM.window', fi.qual, 'a send that raises consumes no window',
+           not late, '; '.join(sorted(set(late))) or 'no raise follows a '
+           'window decrement (stream method inlined)', node=fi.node)
     # the assertions after the decrement are implied by the guard
     ok_as = True
     n_as = 0
